@@ -11,6 +11,7 @@ import gen
 import mockca
 import vlib
 from ext import keychange
+from ext import redirect
 
 FINISH = dict(
     level="proof",
@@ -434,8 +435,9 @@ def flows(ctx, helper, root):
 
 def run(ctx):
     gen.gen_consts()
+    redirect.translate()       # Gen/Senders.lean: one .send() is one request (Props/C09Redirect, Audit/C04Redirect)
     if ctx.replay:
-        return replay(ctx)
+        return redirect.replay(ctx, records_of) if redirect.owns(ctx.replay) else replay(ctx)
     vlib.build_acmed()
     vlib.build_helper()
     gen.gen_tables()
@@ -446,6 +448,7 @@ def run(ctx):
     try:
         bulk(ctx, helper)
         flows(ctx, helper, root)
+        redirect.c04_extend(ctx, helper, root, records_of)     # 3xx answers to POSTs: what arrives at the Location is judged too
     finally:
         helper.close()
         shutil.rmtree(root, ignore_errors=True)
